@@ -161,11 +161,15 @@ def run_item(item):
             return H.real_call(spec["path"], c["msg"], *extra, **kw)
 
         dom = D.domain_term(spec, fr, ln)
+        if fr2 is not None:
+            dom = z3.And(dom, D.pair_domain_term(spec, fr, fr2, ln, len(extra)))
 
         def post(kind, v, ctx):
             if kind == "exc":
                 return v == "RuntimeError"
             if ctx.conc is not None:
+                if "msg2" in ctx.conc and not D.pair_in_domain_concrete(spec, ctx.conc["msg"], ctx.conc["msg2"], len(extra)):
+                    return False
                 return D.in_domain_concrete(spec, ctx.conc["msg"]) and D.shape_ok(spec, v, name)
             return H.zand(dom, D.shape_ok(spec, v, name))
         H.decide(item, "%s#%d" % (name, vi), call_sym, call_real, conc, post, cmp=D.cmp_loose, maxpaths=spec.get("maxpaths", 20000))
